@@ -3,7 +3,7 @@
    has its actor's previous change among its transitive dependencies (true of every change the
    editing API emits; a first change with seq > 1 makes the implementation panic instead —
    known finding under C15). *)
-From AM Require Import Base.Prelude Base.Order Crdt.Types Crdt.Doc Crdt.QueueProofs.
+From AM Require Import Base.Prelude Base.Order Crdt.Types Crdt.Doc Crdt.QueueProofs Crdt.Commit Crdt.PruneProofs.
 Local Open Scope N_scope.
 
 (* the invariant holds initially and every accepted delivery preserves it *)
@@ -26,3 +26,14 @@ Proof. exact run_actor_seq_unique. Qed.
 Theorem C38_seq_range : forall u d, Inv u d ->
   forall c, In c (applied d) -> 1 <= ch_seq c <= seq_for_actor (applied d) (ch_actor c).
 Proof. exact Inv_seq_range. Qed.
+
+(* a local commit that claims a sequence number (it mirrors transaction_args, also for a commit that
+   ends up creating no change) discards every held change of its actor with that or a later
+   sequence number - the conflicting branch - and holds back nothing new *)
+Theorem C38_commit_discards_conflicting_branch : forall m r m' oc meta,
+  m_commit m r = Ok (m', oc) ->
+  commit_meta (applied (m_doc m)) (m_get_heads m) (cr_actor r) (cr_iso r) = Ok meta ->
+  forall c, In c (queue (m_doc m')) ->
+    In c (queue (m_doc m)) /\
+    ~ (same_actor (ch_actor c) (cm_actor meta) = true /\ cm_seq meta <= ch_seq c).
+Proof. exact commit_discards_conflicting_branch. Qed.
